@@ -251,6 +251,14 @@ def register(reg):
     F3 = {"x": "real", "y": "real", "z": "real"}
     ext = {'Vector3D.__new__': {'kind': 'fresh', 'result': 'ref:Vector3D', 'alloc': True, 'doc': 'raysect new_vector3d: a freshly allocated vector'},
            'rotate_z': {'kind': 'pure', 'result': 'ref:AffineMatrix3D', 'doc': 'raysect rotate_z(angle in degrees) pure'}}
+    # the clamp that keeps the normalised flux non-negative: ClampOutput2D stores the bounds it is given (0 included)
+    CLF = "cherab/core/math/clamp.pyx"
+    reg.contract(CLF, "ClampOutput2D.__init__", PROP, sorts={"min": "real", "max": "real", "f": "ref:Function2D!"},
+        raises={"ValueError": "min >= max"},
+        ensures=[("bounds_stored", "self._min == min and self._max == max"), ("function_stored", "same(self._f, f)")])
+    reg.contract(CLF, "ClampOutput2D.evaluate", PROP, sorts={"x": "real", "y": "real"}, requires=["not is_none(self._f)"],
+        ghost={"cl(v, a, b)": "ite(v < a, a, ite(v > b, b, v))"},
+        ensures=[("composition", "result == cl(self._f.evaluate(x, y), self._min, self._max)")], modifies=[])
     reg.contract(MPF, "AxisymmetricMapper.evaluate", PROP, sorts=F3, requires=["not is_none(self.function2d)"], externals=ext,
         ensures=[("composition", "result == self.function2d.evaluate(sqrt(x*x + y*y), z)")], modifies=[])
     reg.contract(MPF, "VectorAxisymmetricMapper.evaluate", PROP, sorts=F3, requires=["not is_none(self.function2d)"], externals=ext,
